@@ -1,7 +1,8 @@
 #!/usr/bin/env python3
 """seed_prompt.py <batch-dir> <out-dir> [ids...] -- writes <out-dir>/<Cxx>/prompt.txt for the sub-agents that produce seeded changes.
 Each agent gets only the property text, a scratch worktree (<batch-dir>/<Cxx>) and the list of functions that earlier seeded
-changes touched (so that it picks another mechanism). Nothing from /verif is shown to it."""
+changes touched (so that it picks another mechanism). Nothing from /verif is shown to it.
+(Before launching the agents: mkdir -p /tmp/mutkit && cp /verif/tools/run_suite.sh /tmp/mutkit/ -- the prompt points the agents there.)"""
 import json, os, sys, glob
 
 TEMPLATE = '''You are helping to evaluate a verification effort for the C memory allocator mimalloc (v2.2.3). Your job is to play the role of a developer who introduces a subtle, realistic bug.
